@@ -165,6 +165,9 @@ def shim_len(o):
         if not o.shape: raise TypeError('len() of unsized object')
         return o.shape[0]
     if hasattr(o, '__pyvc_len__'): return o.__pyvc_len__()
+    if isinstance(o, (list, tuple, dict, str, set, frozenset, bytes, range)): return builtins.len(o)
+    lm = getattr(type(o), '__len__', None)
+    if lm is not None: return lm(o)          # a user class whose __len__ may return a symbolic integer
     return builtins.len(o)
 def shim_range(*a):
     if builtins.any(isinstance(x, (SInt, SBV)) for x in a):
@@ -215,7 +218,7 @@ def _pick(seq, better):
 def shim_max(*a, **k):
     if len(a) == 1 and not k: a = tuple(a[0])
     if not k and builtins.any(core.is_sym(x) for x in a): return _pick(a, lambda v, b: v > b)
-    if not k and builtins.any(isinstance(x, _rnp.dtype) for x in a): return builtins.max(*[_rnp.dtype(x) for x in a])
+    if not k and builtins.any(isinstance(x, (_rnp.dtype, symnp.DT)) for x in a): return symnp.DT(builtins.max(*[_rnp.dtype(x) for x in a]))
     return builtins.max(*a, **k) if len(a) > 1 else builtins.max(a[0], **k)
 def shim_min(*a, **k):
     if len(a) == 1 and not k: a = tuple(a[0])
@@ -228,9 +231,13 @@ def shim_sum(it, start=0):
     acc = start
     for v in it: acc = acc + v
     return acc
+class LazyEnum:
+    """enumerate() that does not touch its iterable before iteration starts (a loop contract may replace the iteration)"""
+    def __init__(self, it, start): self.it = it; self.start = start
+    def __iter__(self): return builtins.enumerate(self.it, self.start)
 def shim_enumerate(it, start=0):
-    if hasattr(it, '__pyvc_enumerate__'): return it.__pyvc_enumerate__(start)
-    return builtins.enumerate(it, start)
+    if isinstance(it, (list, tuple, range, str)): return builtins.enumerate(it, start)
+    return LazyEnum(it, start)
 def shim_hasattr(o, n): return builtins.hasattr(o, n)
 
 def sandbox_builtins(importer):
@@ -302,6 +309,8 @@ class Loader:
         self.fn_hash = {}          # key -> sha256 of the function's source segment
         self.extra = {}            # stub modules by name (estraces, scipy, ...)
         self.stubs = {'numpy': symnp, 'numba': _numba_stub(), 'psutil': _psutil_stub(), 'time': _time_stub()}
+        from . import estub
+        em, emods = estub.module(); self.extra.update(emods)
         self.builtins = sandbox_builtins(self._import)
     # -- import hook used inside the sandbox
     def _import(self, name, globals=None, locals=None, fromlist=(), level=0):
@@ -349,7 +358,9 @@ class Loader:
         if not found: raise ImportError('pyvc loader: no module %s under %s' % (name, self.repo))
         path, is_pkg = found
         parent = name.rpartition('.')[0]
-        if parent: self.load(parent)
+        if parent:
+            self.load(parent)
+            if name in self.modules: return self.modules[name]      # the parent package's __init__ imported it meanwhile
         mod = types.ModuleType(name); mod.__file__ = path
         mod.__package__ = name if is_pkg else parent
         if is_pkg: mod.__path__ = [os.path.dirname(path)]
